@@ -6,7 +6,7 @@ ID = "C14"
 LEVEL = "exploration"
 TECHNIQUE = "complete enumeration of the five opcode tables, their service-action tables, the status table and all 256 opcode values against an independent T10 table"
 RULE = ("every named entry of spc/sbc/ssc/smc/mmc, every entry of every service-action table, every SCSI_STATUS entry, every pair "
-        "of sets sharing a name, every name of any set looked up on every set (refused, or the T10 value; tables unchanged afterwards), and init_cdb for each of the 256 opcode values. Non-trivial = the oracle has its own T10 value "
+        "of sets sharing a name, every name of any set looked up on every set (refused, or the T10 value; tables unchanged afterwards), and init_cdb for each of the 256 opcode values, also carried by OpCode objects of every shipped name (and names of the 32-byte / variable-length commands) with the entry's own service-action table. Non-trivial = the oracle has its own T10 value "
         "for the entry (or a length/refusal expectation for the opcode value); distinct = distinct (kind, set, name|value).")
 ASSUMPTIONS = [
     "oracle: vf/spec/opcodes.py transcribed from T10 op-num / SPC-4 / SBC-3 / SSC-4 / SMC-3 / MMC-6 / SAM-5 (cross-checked at setup against scsi/scsi.h and linux/cdrom.h)",
@@ -78,16 +78,17 @@ def check_sa(setname, key, sakey):
     return out, want is not None
 
 
-def check_init(value):
+def check_init(value, name="X", sa=None):
+    """the CDB length follows from the operation code alone, whatever the OpCode object is called and whatever service actions it lists"""
     from pyscsi.pyscsi.scsi_command import SCSICommand
     from pyscsi.pyscsi.scsi_opcode import OpCode
     want = T.cdb_length(value)
     out = []
     try:
-        cdb = SCSICommand.init_cdb(OpCode("X", value, {}))
+        cdb = SCSICommand.init_cdb(OpCode(name, value, sa or {}))
         got = len(cdb)
         if want is None:
-            out.append(("init_cdb/accepts", "init_cdb(opcode %#04x) returned %d bytes; the group has no fixed length and must be refused" % (value, got)))
+            out.append(("init_cdb/accepts", "init_cdb(opcode %#04x%s) returned %d bytes; the group has no fixed length and must be refused" % (value, "" if name == "X" else " named %r" % name, got)))
         elif got != want or any(cdb):
             out.append(("init_cdb/length", "init_cdb(opcode %#04x) -> %d bytes, group prescribes %d" % (value, got, want)))
     except Exception as e:
@@ -103,7 +104,7 @@ def run_case(case):
     if kind == "sa":
         return check_sa(case[1], case[2], case[3])[0]
     if kind == "init":
-        return check_init(case[1])
+        return check_init(*case[1:])
     if kind == "same":
         E, sets = _sets()
         a, b, key = case[1:]
@@ -129,14 +130,14 @@ def run_partition(part, tier, seed):
     E, sets = _sets()
 
     def do(case, nontrivial=True):
-        acc.case(case, nontrivial=nontrivial, key=tuple(case))
+        acc.case(case, nontrivial=nontrivial, key=repr(case))
         try:
             v = run_case(case)
         except Exception as e:
             v = [("error/%s" % case[0], "%s raised %r" % (case, e))]
         for key, what in v:
             acc.violation(key, what, case)
-        acc.outcome((tuple(case), tuple(k for k, _ in v)))
+        acc.outcome((repr(case), tuple(k for k, _ in v)))
 
     if part[0] == "lookups":
         names = sorted({k for s in SETS for k in sets[s].keys} | {"READ_CAPACITY_16", "SYNCHRONIZE_CACHE_12", "WRITE_SAME_32", "READ_6", "INQUIRY_6"})
@@ -182,6 +183,22 @@ def run_partition(part, tier, seed):
     if part[0] == "init_cdb":
         for v in range(256):
             do(["init", v])
+        # every name a shipped table gives to an OpCode object (dictionary key and .name text), and names of the variable-length
+        # commands of the standards, x all 256 values, with the entry's own service-action table
+        names = {}
+        for s in SETS:
+            for key in sets[s].keys:
+                op = getattr(sets[s], key)
+                sa = {k: getattr(op.serviceaction, k) for k in op.serviceaction.keys}
+                names.setdefault(key, sa)
+                names.setdefault(str(op.name), sa)
+        for extra in ("READ_32", "WRITE_32", "VERIFY_32", "WRITE_SAME_32", "ORWRITE_32", "WRITE_AND_VERIFY_32", "VARIABLE_LENGTH_CDB", "XDWRITEREAD_32",
+                      "EXTENDED_CDB", "VENDOR_SPECIFIC", "", "7F", "X_16", "X_12", "X_10", "X_6"):
+            names.setdefault(extra, {})
+        for nm in sorted(names):
+            for v in range(256):
+                do(["init", v, nm, names[nm]], nontrivial=T.cdb_length(v) is None)
+        acc.extra["opcode_names_tried"] = len(names)
         return acc
     unasserted = []
     n_named = 0
